@@ -64,7 +64,7 @@ Definition solver_solve_body_ref : list sk :=
   [(SIf [(SIf [(SReturn)] [])] []); (SIf [(SReturn)] []); (SIf [(SReturn)] []); (SIf [(SReturn)] []); (SCall "Copy"); (SCall "Copy"); (SCall "Random"); (SCall "Int63"); (SRead "ctx"); (SCall "WithDeadline"); (SRead "solveInformation"); (SSend "solutions"); (SGo [(SDefer [(SClose "solutions"); (SCall "cancel")]); (SFor [(SRead "solveInformation"); (SRead "solveInformation"); (SRead "solveInformation"); (SRead "solveInformation"); (SRead "solveInformation"); (SFor [(SSelect [("comm", [SRecv "ctx.Done"; (SRead "solveInformation"); (SBreak "Loop")]); ("default", [(SRead "ctx"); (SRead "solveInformation"); (SIf [(SSend "solutions"); (SBreak "Loop")] []); (SIf [(SSend "solutions")] [])])])]); (SFor [(SRead "solveInformation")]); (SRead "solveInformation")]); (SRead "solveInformation")]); (SReturn)].
 
 Definition solver_parallel_wrapper_shared_ref : list (string * string) :=
-  [("initialSolutions", "plain"); ("wg", "wg")].
+  [("constructionErrors", "plain"); ("initialSolutions", "plain"); ("wg", "wg")].
 
 Definition solver_parallel_wrapper_body_ref : list sk :=
-  [(SCall "WithDeadline"); (SIf [(SWgAdd "wg"); (SIf [(SReturn)] []); (SFor [(SGo [(SDefer [SWgDone "wg"]); (SIf [(SCall "panic")] [])])]); (SWgWait "wg"); (SRead "initialSolutions")] []); (SIf [(SIf [(SReturn)] [])] []); (SCall "Solve"); (SReturn)].
+  [(SCall "WithDeadline"); (SIf [(SWgAdd "wg"); (SIf [(SReturn)] []); (SFor [(SGo [(SDefer [SWgDone "wg"]); (SIf [(SReturn)] [])])]); (SWgWait "wg"); (SRead "constructionErrors"); (SFor [(SIf [(SReturn)] [])]); (SRead "initialSolutions")] []); (SIf [(SIf [(SReturn)] [])] []); (SCall "Solve"); (SReturn)].
